@@ -73,6 +73,9 @@ class Gen:
         self.protocol = protocol
         self.next_id = 100
         self.made = []        # states already emitted (for sharing)
+        # decorative keys of the format (written by the dumper, read by no loader) on EVERY node of some archives:
+        # a node must be audited according to its __loader__, whatever else its state claims
+        self.flag_all = rnd.random() < 0.12
         self.anc = []         # ids of ancestors (for cycles)
         self.members = {"m1.bin", "m2.npy", "m3.npz"}
         self.wellformed = True
@@ -144,6 +147,8 @@ class Gen:
             self.anc.pop()
         if self.r.random() < 0.97:
             st["__id__"] = nid
+        if self.flag_all and isinstance(st, dict):
+            st.setdefault("is_json", True)
         if self.r.random() < 0.04 and depth > 0:
             # a key no loader reads, holding something that looks like a node: must stay inert
             st[self.r.choice(INERT_KEYS)] = self.inert(depth - 1, lambda: None)
